@@ -233,7 +233,8 @@ func (p place) cause(kind string) string {
 	if kind == "gap" {
 		return "layout-in-" + p.encl
 	}
-	if kind == "/*" && (p.left == ";" || p.left == "BOF" || p.left == "{") {
+	stmtCtx := p.encl == "File" || p.encl == "BlockStmt" || p.encl == "CaseClause" || p.encl == "CommClause"
+	if kind == "/*" && stmtCtx && (p.left == ";" || p.left == "BOF" || p.left == "{") {
 		return "leading-general-comment-before-statement"
 	}
 	return "comment-in-" + p.encl
